@@ -221,7 +221,8 @@ def match_known(mech, known):
 
 
 def write_evidence(prop, payload):
-    d = os.path.join(VERIF, 'evidence')
+    # the mutation audit redirects evidence so that /verif/evidence only ever describes /repo itself
+    d = os.environ.get('VERIF_EVIDENCE_DIR') or os.path.join(VERIF, 'evidence')
     os.makedirs(d, exist_ok=True)
     path = os.path.join(d, '%s.json' % prop)
     tmp = path + '.tmp'
